@@ -28,6 +28,13 @@ def gen_case(rng, cid):
         if rng.random() < p: args[name] = v
     if r == 'axpy':
         args['x'] = operand(rng, m, n, 'ds', tcs, bad); args['y'] = operand(rng, m, n, 'ds', tcs, bad); pos = ['x', 'y']
+        if not valid and rng.random() < 0.35:
+            # the same number of elements in another shape (a row against a column, a reshaped block): the kernels walk the columns of x
+            mm = rng.choice([2, 3, 4, 6, 40]); shp = rng.choice([(1, mm), (mm, 1), (2, mm), (mm, 2)])
+            for nm_, sh in (('x', shp), ('y', (shp[1], shp[0]))):
+                key = 'sp' if (rng.random() < 0.7) else 'mat'
+                tcv = tcs if len(tcs) == 1 else rng.choice('dz')
+                args[nm_] = {'sp': [tcv, sh[0], sh[1], rng.randint(0, 2)]} if key == 'sp' else {'mat': [tcv, sh[0], sh[1]]}
         opt('alpha', num(rng)); opt('partial', {'bool': rng.random() < 0.6}, 0.4)
     elif r == 'gemm':
         tA, tB = rng.choice('NTC'), rng.choice('NTC')
